@@ -631,8 +631,8 @@ pub fn run(e: &Engine) {
         e.campaign(
             &format!("chain-{b:?}"),
             rule,
-            e.tier.pick(24, 720),
-            move || strategy(b, 12),
+            e.tier.pick(if b == Backend::GitRemote { 16 } else { 32 }, 720),
+            move || strategy(b, if b == Backend::GitRemote { 9 } else { 12 }),
             |c| serde_json::json!({"backend": format!("{:?}", c.backend), "ops": c.ops.iter().map(|o| match o { SOp::AddVersion { h, parent, payload } => format!("AddVersion(h{h}, {parent:?}, {} bytes)", payload_bytes(payload).len()), other => format!("{other:?}") }).collect::<Vec<_>>()}),
             check_case,
         );
